@@ -49,6 +49,10 @@ type c17Scenario struct {
 	AltChunks []int       `json:"alt_chunks,omitempty"`
 	Align     int         `json:"align,omitempty"`  // as in C01: reads end Align-2 bytes after every record boundary
 	PadTo     int         `json:"pad_to,omitempty"` // the first description is padded so that the second record starts at this offset
+	// OutName, if set, is the output file name from which the writer's format
+	// is detected (seqio.Detect), as the CLI does for -o; it always ends in
+	// ".fasta", so FASTA is what must come out.
+	OutName string `json:"out_name,omitempty"`
 }
 
 var printable = func() string {
@@ -110,6 +114,9 @@ func genC17(r *core.RNG, tier string) *c17Scenario {
 			}
 			sc.GB = append(sc.GB, src)
 		}
+		if r.Chance(1, 4) {
+			sc.OutName = fastaNames[r.Intn(len(fastaNames))]
+		}
 		return sc
 	}
 	n := r.Range(1, 5)
@@ -137,6 +144,25 @@ func genC17(r *core.RNG, tier string) *c17Scenario {
 	}
 	if r.Chance(1, 6) {
 		sc.Align = r.Range(1, 3)
+	}
+	if r.Chance(1, 6) {
+		sc.OutName = fastaNames[r.Intn(len(fastaNames))]
+	}
+	if r.Chance(1, 30) {
+		// a record whose laid-out body (residues plus line ends) is exactly, or one
+		// off, a multiple of a buffer size somewhere below: 4 KiB, 32 KiB, 64 KiB
+		b := []int{4096, 32768, 65536}[r.Intn(3)] * r.Range(1, 2)
+		target := b + r.Range(-1, 1)
+		l := target * 70 / 71
+		for l+(l+69)/70 < target {
+			l++
+		}
+		i := r.Intn(len(sc.Recs))
+		sc.Recs[i].Len = l
+		sc.Recs[i].Alphabet = ""
+		if i == len(sc.Recs)-1 {
+			sc.Recs = append(sc.Recs, fastaRec{Desc: "after the long one", Len: 17, Seed: 1})
+		}
 	}
 	if len(sc.Recs) > 1 && r.Chance(1, 8) {
 		// the second record's '>' lands on (or next to) a multiple of the reader's buffer size
@@ -204,9 +230,16 @@ func checkLayout(out []byte, desc string, n int) string {
 	return ""
 }
 
+var fastaNames = []string{"out.fasta", "NC_001422.1.fasta", "phiX174.v2.fasta", "a.b.c.fasta", "results.2026-10-01.fasta", "/u/run.1/out.fasta", "x.gb.fasta", "seq.FASTA.fasta"}
+
 func (x *c17Run) exec() {
 	core.Tick()
 	sc, res := x.sc, x.res
+	fastaType := seqio.FastaFile
+	if sc.OutName != "" {
+		fastaType = seqio.Detect(sc.OutName)
+		res.Probes["format_detected_from_output_name"]++
+	}
 	type want struct {
 		desc string
 		data []byte
@@ -258,7 +291,7 @@ func (x *c17Run) exec() {
 			if !ok {
 				continue
 			}
-			out, err, pnc := writeSeq(seq, seqio.FastaFile)
+			out, err, pnc := writeSeq(seq, fastaType)
 			res.Evaluations++
 			if pnc != "" {
 				x.violate("panic", panicSite(pnc), "FASTA writer panicked on a GenBank record: "+firstLine(pnc))
@@ -291,7 +324,7 @@ func (x *c17Run) exec() {
 			if f.AsBasic {
 				seq = gts.New(f.Desc, nil, data)
 			}
-			out, err, pnc := writeSeq(seq, seqio.FastaFile)
+			out, err, pnc := writeSeq(seq, fastaType)
 			res.Evaluations++
 			if pnc != "" {
 				x.violate("panic", panicSite(pnc), "FASTA writer panicked: "+firstLine(pnc))
@@ -527,6 +560,11 @@ func (C17) Candidates(raw json.RawMessage) []json.RawMessage {
 	if sc.Align != 0 {
 		c := cl()
 		c.Align = 0
+		emit(c)
+	}
+	if sc.OutName != "" && sc.OutName != "out.fasta" {
+		c := cl()
+		c.OutName = "out.fasta"
 		emit(c)
 	}
 	if len(sc.Chunks) > 0 {
